@@ -72,7 +72,7 @@ def purity_obligations(chk, funcs, clause=None, allow_self_state=True, known_rng
                         replay=lambda m, base=q.split(".")[-1]: {"recipe": base}, kind="frame")
             else:
                 # helpers / methods of the module: may fill a buffer the caller hands them, must not write module- or class-level objects
-                glob = [r for r in site.roots if r[0] == "G"]
+                glob = [r for r in site.roots if r[0] in ("G", "C")]     # module / class state, or an array the caller gave to the constructor
                 chk.add("purity.%s.no-module-state-write.%d[line %d: %s]" % (q, k, site.lineno, site.what[:60]), [], z3.BoolVal(not glob), fname, "effects-analysis", clause, kind="frame")
         hidden = list(s.hidden)
         if known_rng and hidden and all("global RandomState" in h.what for h in hidden):
